@@ -59,7 +59,10 @@ def conforms(node, d, names, strict=False, tuple_notation=True):
                 if not conforms(f["t"], d[f["name"]], names, strict, tuple_notation):
                     return False
             elif f["has_default"]:
-                if not conforms(f["t"], f["default"], names, strict, tuple_notation):
+                # "absent fields have a default": the default is schema text (JSON form), its well-formedness is the
+                # schema's business (C11); the value it denotes must conform
+                from .ir import default_value
+                if not conforms(f["t"], default_value(f["t"], f["default"], names), names, strict, tuple_notation):
                     return False
             else:
                 if strict or not accepts_null(f["t"], names):
